@@ -2,8 +2,10 @@ package engines
 
 import (
 	"fmt"
+	iofs "io/fs"
 	"os"
 	"path/filepath"
+	"sort"
 	"strings"
 	"sync"
 
@@ -74,6 +76,8 @@ func c09RunImpl(c corr.Case) []string {
 				return "case"
 			case "snapshot":
 				return SnapLine(SnapshotMem(st.mem))
+			case "dirents-os":
+				return c09DirentsOS(string(corr.UnHex(t[1])), string(corr.UnHex(t[2])))
 			case "relroot-os":
 				return c09RelRootOS(string(corr.UnHex(t[1])), string(corr.UnHex(t[2])))
 			case "symlink-os":
@@ -203,6 +207,75 @@ func c09RelRootOS(root, name string) string {
 	return "ok"
 }
 
+// c09DirentsOS: listing a directory through a BasePathFs on the operating system's file system must be listing
+// D/dir on the source — by every entry point of the handle (Readdir, Readdirnames, and the io/fs ReadDir method
+// where the source's handle has it), and also for what the returned entries say LATER: the source's entries are
+// live (Info() stats the file when asked), so after the file has grown or gone the entries obtained through the
+// wrapper must answer what the entries obtained from the source answer.
+func c09DirentsOS(root, dir string) string {
+	tmp, err := os.MkdirTemp("", "verif-c09dir-")
+	if err != nil {
+		return "fail: " + err.Error()
+	}
+	defer os.RemoveAll(tmp)
+	D := filepath.Join(tmp, root)
+	os.MkdirAll(filepath.Join(D, "d", "sub"), 0o755)
+	os.WriteFile(filepath.Join(D, "d", "grow.txt"), []byte("abc"), 0o644)
+	os.WriteFile(filepath.Join(D, "d", "gone.txt"), []byte("abcde"), 0o644)
+	os.WriteFile(filepath.Join(D, "d", "same.txt"), []byte("x"), 0o644)
+	b := afero.NewBasePathFs(afero.NewOsFs(), D)
+	describe := func(open func() (afero.File, error)) string {
+		var sb strings.Builder
+		f, err := open()
+		if err != nil {
+			return "open:" + ErrClass(err)
+		}
+		defer f.Close()
+		var ents []iofs.DirEntry
+		if rd, ok := f.(iofs.ReadDirFile); ok {
+			ents, err = rd.ReadDir(-1)
+			fmt.Fprintf(&sb, "readdirfile err:%s;", ErrClass(err))
+		} else {
+			sb.WriteString("no-readdirfile;")
+		}
+		f2, _ := open()
+		fis, err := f2.Readdir(-1)
+		f2.Close()
+		fmt.Fprintf(&sb, "readdir err:%s;", ErrClass(err))
+		f3, _ := open()
+		names, err := f3.Readdirnames(-1)
+		f3.Close()
+		sort.Strings(names)
+		fmt.Fprintf(&sb, "names=%s err:%s;", strings.Join(names, ","), ErrClass(err))
+		// the directory changes after it has been listed
+		os.WriteFile(filepath.Join(D, "d", "grow.txt"), []byte("abcdefgh"), 0o644)
+		os.Remove(filepath.Join(D, "d", "gone.txt"))
+		sort.Slice(ents, func(i, j int) bool { return ents[i].Name() < ents[j].Name() })
+		for _, e := range ents {
+			fi, err := e.Info()
+			if err != nil {
+				fmt.Fprintf(&sb, "%s dir=%v info:%s;", e.Name(), e.IsDir(), ErrClass(err))
+			} else {
+				fmt.Fprintf(&sb, "%s dir=%v info:%s/%d;", e.Name(), e.IsDir(), fi.Name(), fi.Size())
+			}
+		}
+		sort.Slice(fis, func(i, j int) bool { return fis[i].Name() < fis[j].Name() })
+		for _, fi := range fis {
+			fmt.Fprintf(&sb, "%s dir=%v size=%d;", fi.Name(), fi.IsDir(), fi.Size())
+		}
+		// restore for the second description
+		os.WriteFile(filepath.Join(D, "d", "grow.txt"), []byte("abc"), 0o644)
+		os.WriteFile(filepath.Join(D, "d", "gone.txt"), []byte("abcde"), 0o644)
+		return sb.String()
+	}
+	got := describe(func() (afero.File, error) { return b.Open(dir) })
+	want := describe(func() (afero.File, error) { return afero.NewOsFs().Open(filepath.Join(D, dir)) })
+	if got != want {
+		return fmt.Sprintf("fail: listing %q through the wrapper (before and after the directory changed) gives %s; the source with the root prepended gives %s", dir, got, want)
+	}
+	return "ok"
+}
+
 func c09Oracle(c corr.Case, impl []string) (string, int) {
 	var st *bpStack
 	var twin afero.Fs
@@ -213,7 +286,7 @@ func c09Oracle(c corr.Case, impl []string) (string, int) {
 			return "call panics: " + t[0], i
 		}
 		switch {
-		case t[0] == "symlink-os" || t[0] == "relroot-os":
+		case t[0] == "symlink-os" || t[0] == "relroot-os" || t[0] == "dirents-os":
 			if strings.HasPrefix(impl[i], "fail") {
 				return impl[i], i
 			}
@@ -229,8 +302,13 @@ func c09Oracle(c corr.Case, impl []string) (string, int) {
 			}
 			continue
 		case t[0] == "fullpath":
-			// "the joined path": filepath.Join of the roots as given and the name
-			want := "str=" + corr.HexS(filepath.Join(append(append([]string{}, st.roots...), string(corr.UnHex(t[1])))...))
+			// "the joined path": the name joined to each root as given, innermost first — level by level, as the stack
+			// resolves names (an inner root that climbs, "/../x", stays below the outer one)
+			wp := string(corr.UnHex(t[1]))
+			for k := len(st.roots) - 1; k >= 0; k-- {
+				wp = filepath.Join(st.roots[k], wp)
+			}
+			want := "str=" + corr.HexS(wp)
 			if impl[i] != want {
 				return fmt.Sprintf("FullBaseFsPath = %s, joined roots give %s", impl[i], want), i
 			}
@@ -278,6 +356,8 @@ var c09Roots = [][]string{
 	{"bp", "/base"}, {"bp", "/base/"}, {"bp", "/x/../base//sub/."}, {"bp", "/"}, {"bp", "//deep/er/root"},
 	{"bpnest", "/base", "/sub"}, {"bpnest", "/base/", "/sub/inner/"}, {"bpnest", "/", "/base"}, {"bpnest", "/base", "/"},
 	{"bpnl", "/base"}, {"bpnlnest", "/base", "/sub"},
+	// an inner root that climbs: the outer level confines it before the roots are joined (/base/shared, never /shared)
+	{"bpnest", "/base", "/../shared"}, {"bpnest", "/base/", "/sub/../../x"}, {"bpnlnest", "/jail", "/../../shared"},
 	// relative roots: the working directory itself, below it, above it
 	{"bp", "."}, {"bp", ""}, {"bp", "rel"}, {"bp", "./rel/x/.."}, {"bp", ".."}, {"bp", "../up"},
 	{"bpnest", "rel", "sub"}, {"bpnest", ".", "sub"}, {"bpnest", "rel", "."}, {"bpnest", "/base", "sub"}, {"bpnest", "..", "in"},
@@ -368,6 +448,14 @@ func c09SymlinkCases() []corr.Case {
 		}
 	}
 	cases = append(cases, corr.Case{Lines: lr})
+	// directory handles on the operating system's file system: every listing entry point, entries asked again later
+	ld := []string{c09Header([]string{"bp", "/base"})}
+	for _, root := range []string{"base", "base/deep"} {
+		for _, d := range []string{"d", "/d", "d/", "./d", "d/sub/..", "/d/sub", "nope"} {
+			ld = append(ld, "dirents-os "+h(root)+" "+h(d))
+		}
+	}
+	cases = append(cases, corr.Case{Lines: ld})
 	return cases
 }
 
